@@ -396,6 +396,8 @@ class ArrV:
                 raise ev.err("non-trivial index on a grid axis", n, mod)
         sets, scalar = [], []
         for size, i in zip(self.shape, const_items):
+            if isinstance(i, ArrV) and not i.batch and len(i.shape) == 1 and all(is_sym(i.get((j,))) and sp.sympify(i.get((j,))).is_Integer for j in range(i.shape[0])):
+                i = Tup([i.get((j,)) for j in range(i.shape[0])], "list")                    # an integer index vector: the same as a list of integers
             if isinstance(i, Tup) and all(is_sym(x) and x.is_Integer for x in i.items):      # integer-list (fancy) index on one axis
                 ks = [int(x) + (size if int(x) < 0 else 0) for x in i.items]
                 if not all(0 <= kk < size for kk in ks):
